@@ -71,7 +71,8 @@ class Origin:
       ('phi', [alts])                           ('promoted', n)          ('yield',)
     """
 
-    def __init__(self, body, transparent_extra=(), max_depth=14):
+    def __init__(self, body, transparent_extra=(), max_depth=14, stop_at_vars=False):
+        self.stop_at_vars = stop_at_vars
         self.body = body
         self.extra = tuple(transparent_extra)
         self.max_depth = max_depth
@@ -127,6 +128,8 @@ class Origin:
             r = ('arg', l, b.local_name(l))
             self._memo[key] = r
             return r
+        if self.stop_at_vars and (depth > 0 or seen) and b.varnames.get(l):
+            return ('var', l, b.varnames[l][0])
         ds = [d for d in b.defs.get(l, []) if d[2] in ('assign', 'call', 'yield', 'passign', 'pcall')]
         if 1 <= l <= b.argc:
             alts = [('arg', l, b.local_name(l))]
@@ -220,6 +223,8 @@ def render(e, depth=0):
         return e[1]
     if t == 'arg':
         return 'arg:%s' % e[2]
+    if t == 'var':
+        return 'var:%s' % e[2]
     if t == 'local':
         return '_%d' % e[1]
     if t == 'field':
